@@ -44,25 +44,85 @@ struct HOut {
   send_errors: Vec<String>,
 }
 
+/// When the SUB and the PUB get connected relative to the script.
+#[derive(Clone, Copy, Debug, PartialEq, Eq, Hash)]
+enum Conn {
+  /// before the first event
+  AtStart,
+  /// just before event k (k >= 1): the subscriptions made so far must be synced to the new publisher
+  LateAt(usize),
+  /// connected at the start; just before event k the connection is destroyed and a new one is made
+  /// (what a reconnect does): the subscription multiset must be replayed to the new connection
+  RelinkAt(usize),
+  /// connected at the start; just before event k a SECOND publisher connects (it publishes a copy of
+  /// every later publication under its own tag)
+  SecondPubAt(usize),
+}
+
 fn history_world(tr: Tr, script: &[Ev]) -> world::WorldResult<HOut> {
+  history_world_conn(tr, script, Conn::AtStart)
+}
+
+fn history_world_conn(tr: Tr, script: &[Ev], conn: Conn) -> world::WorldResult<HOut> {
   let script = script.to_vec();
   world::run(1, move || async move {
     let ctx = Context::new().expect("context");
     let p = stack::mk(&ctx, SocketType::Pub, &[(o::LINGER, 0), (o::SNDTIMEO, 100)]).await;
+    let p2 = stack::mk(&ctx, SocketType::Pub, &[(o::LINGER, 0), (o::SNDTIMEO, 100)]).await;
     let s = stack::mk(&ctx, SocketType::Sub, &[(o::LINGER, 0), (o::RCVTIMEO, 20)]).await;
-    let link = match tr {
-      Tr::Zmtp => Some(stack::link_pair(&s, &p, 1 << 16).await),
-      Tr::Inproc => {
-        p.bind("inproc://c12").await.expect("bind");
-        s.connect("inproc://c12").await.expect("connect");
-        None
+    if tr == Tr::Inproc {
+      p.bind("inproc://c12").await.expect("bind");
+      p2.bind("inproc://c12-second").await.expect("bind");
+    }
+    let mut links: Vec<mc_core::world::Link> = vec![];
+    let mut connected = false;
+    let mut second = false;
+    if !matches!(conn, Conn::LateAt(_)) {
+      match tr {
+        Tr::Zmtp => links.push(stack::link_pair(&s, &p, 1 << 16).await),
+        Tr::Inproc => s.connect("inproc://c12").await.expect("connect"),
       }
-    };
+      connected = true;
+    }
     settle_n(6).await;
     let mut out = HOut::default();
     let mut subs: BTreeMap<Vec<u8>, usize> = BTreeMap::new();
     let mut seq = 0u32;
-    for e in &script {
+    for (idx, e) in script.iter().enumerate() {
+      match conn {
+        Conn::LateAt(k) if k == idx => {
+          match tr {
+            Tr::Zmtp => links.push(stack::link_pair(&s, &p, 1 << 16).await),
+            Tr::Inproc => s.connect("inproc://c12").await.expect("connect"),
+          }
+          connected = true;
+          settle_n(8).await;
+        }
+        Conn::RelinkAt(k) if k == idx => {
+          match tr {
+            Tr::Zmtp => {
+              links[0].destroy();
+              settle_n(8).await;
+              links.push(stack::link_pair(&s, &p, 1 << 16).await);
+            }
+            Tr::Inproc => {
+              s.disconnect("inproc://c12").await.expect("disconnect");
+              settle_n(8).await;
+              s.connect("inproc://c12").await.expect("connect");
+            }
+          }
+          settle_n(8).await;
+        }
+        Conn::SecondPubAt(k) if k == idx => {
+          match tr {
+            Tr::Zmtp => links.push(stack::link_pair(&s, &p2, 1 << 16).await),
+            Tr::Inproc => s.connect("inproc://c12-second").await.expect("connect"),
+          }
+          second = true;
+          settle_n(8).await;
+        }
+        _ => {}
+      }
       match *e {
         Ev::Sub(i) => {
           s.set_option(o::SUBSCRIBE, TOPICS[i]).await.expect("subscribe");
@@ -89,8 +149,22 @@ fn history_world(tr: Tr, script: &[Ev]) -> world::WorldResult<HOut> {
           if let Err(e) = r {
             out.send_errors.push(e.to_string());
           }
-          if subs.iter().any(|(t, c)| *c > 0 && first.starts_with(t)) {
-            out.want.push(frames);
+          let matches = subs.iter().any(|(t, c)| *c > 0 && first.starts_with(t));
+          if connected && matches {
+            out.want.push(frames.clone());
+          }
+          if second {
+            // the second publisher's copy: same first frame (same verdict), an extra tag frame
+            settle_n(4).await;
+            let mut f2 = frames.clone();
+            f2.push(b"from-second".to_vec());
+            let n = f2.len();
+            if let Err(e) = p2.send_multipart(f2.iter().enumerate().map(|(k, f)| msg(f, k + 1 < n)).collect()).await {
+              out.send_errors.push(format!("second publisher: {}", e));
+            }
+            if matches {
+              out.want.push(f2);
+            }
           }
         }
       }
@@ -103,7 +177,7 @@ fn history_world(tr: Tr, script: &[Ev]) -> world::WorldResult<HOut> {
         }
       }
     }
-    if let Some(l) = &link {
+    for l in &links {
       l.destroy();
     }
     let _ = tokio::time::timeout(Duration::from_secs(30), ctx.term()).await;
@@ -171,6 +245,64 @@ fn histories_sub(tier: Tier) -> Sub {
       c.nontrivial = !o.want.is_empty();
       c.outcome = mc_core::digest(&(o.want.len(), o.got.len()));
       c.state = mc_core::digest(&(k, o.got.len()));
+      if !o.send_errors.is_empty() {
+        c.violations.push(("publisher-send-failed".into(), class.clone(), format!("{:?}", o.send_errors), wit.clone()));
+      }
+      if o.got != o.want {
+        let show = |v: &Vec<Vec<Vec<u8>>>| v.iter().map(|m| m.iter().map(|f| String::from_utf8_lossy(f).to_string()).collect::<Vec<_>>()).collect::<Vec<_>>();
+        let clause = if o.got.len() < o.want.len() {
+          "matching-message-not-delivered"
+        } else if o.got.len() > o.want.len() {
+          "non-matching-or-duplicate-message-delivered"
+        } else {
+          "delivered-messages-differ"
+        };
+        c.violations.push((clause.into(), class.clone(), format!("delivered {:?}, reference {:?}", show(&o.got), show(&o.want)), wit.clone()));
+      }
+    }
+    c
+  });
+  sub
+}
+
+/// (a2) the same histories with the connection made late, remade, or joined by a second publisher.
+fn connection_histories_sub(tier: Tier) -> Sub {
+  let mut sub = Sub::new("pubsub-connection-histories", "E3");
+  let depth = tier.pick(3, 4);
+  sub.rule = "case = one world per (script of exactly `depth` events as in pubsub-histories) x (connection made just before event k / destroyed and remade just before event k / a second publisher connected just before event k, k = 1..depth-1) x transport; a publication made while no connection exists is owed to nobody; non-trivial = something was owed; oracle: as pubsub-histories - in particular the subscription multiset built before the (new) connection existed governs what that connection delivers".into();
+  let sc = scripts(depth);
+  let mut work = vec![];
+  for tr in [Tr::Zmtp, Tr::Inproc] {
+    for k in 1..depth {
+      for conn in [Conn::LateAt(k), Conn::RelinkAt(k), Conn::SecondPubAt(k)] {
+        // inproc has no connection loss, and disconnect() of an inproc endpoint is a no-op at the pinned
+        // commit (transport/inproc/mod.rs disconnect_inproc: "nothing to clean up"), so disconnect +
+        // connect yields two connections to the publisher and, as in libzmq, two copies of everything:
+        // that is disconnect() semantics, not something C12 states - remaking is explored on ZMTP only
+        if tr == Tr::Inproc && matches!(conn, Conn::RelinkAt(_)) {
+          continue;
+        }
+        for i in 0..sc.len() {
+          work.push((tr, conn, i));
+        }
+      }
+    }
+  }
+  sub.bounds = json!({"depth": depth, "scripts": sc.len(), "worlds": work.len(), "connection_modes": ["LateAt(k)", "RelinkAt(k)", "SecondPubAt(k)"], "k": format!("1..{}", depth)});
+  par::enumerate(&mut sub, work.len(), |n| {
+    let (tr, conn, i) = work[n];
+    let script = &sc[i];
+    let r = history_world_conn(tr, script, conn);
+    let wit = json!({"explorer": "e3", "sub": "pubsub-connection-histories", "transport": format!("{:?}", tr), "conn": format!("{:?}", conn), "script": format!("{:?}", script)});
+    let mut c = Case { steps: script.len() as u64 + 1, ..Default::default() };
+    let class = format!("{:?}:{}", tr, format!("{:?}", conn).split('(').next().unwrap_or(""));
+    for p in &r.panics {
+      c.violations.push(("panic".into(), p.rsplit(" @ ").next().map(mc_core::short_loc).unwrap_or_default(), p.clone(), wit.clone()));
+    }
+    if let Some(o) = r.result {
+      c.nontrivial = !o.want.is_empty();
+      c.outcome = mc_core::digest(&(o.want.len(), o.got.len()));
+      c.state = mc_core::digest(&(n, o.got.len()));
       if !o.send_errors.is_empty() {
         c.violations.push(("publisher-send-failed".into(), class.clone(), format!("{:?}", o.send_errors), wit.clone()));
       }
@@ -530,6 +662,7 @@ fn slow_sub(tier: Tier) -> Sub {
 pub fn add_world_subs(rep: &mut Report, tier: Tier) {
   rep.assume("E3: events of a pub/sub history are separated by quiescence, so 'when the message reaches the subscriber' is the subscription set at publication time; healthy subscribers have a large RCVHWM and read after every publication");
   rep.add(histories_sub(tier));
+  rep.add(connection_histories_sub(tier));
   rep.add(isolation_sub(tier));
   rep.add(slow_sub(tier));
 }
@@ -540,6 +673,21 @@ pub fn replay(w: &Value) -> Result<String, String> {
     for d in [4usize, 5, 6] {
       if let Some(sc) = scripts(d).into_iter().find(|s| w["script"] == format!("{:?}", s)) {
         let r = history_world(tr, &sc);
+        if !r.panics.is_empty() {
+          return Err(format!("panics: {:?}", r.panics));
+        }
+        let o = r.result.ok_or("world did not finish")?;
+        return if o.got == o.want && o.send_errors.is_empty() { Ok("delivered == reference".into()) } else { Err(format!("{:?}", o)) };
+      }
+    }
+    return Err("script not found".into());
+  }
+  if w["sub"] == "pubsub-connection-histories" {
+    let tr = if w["transport"] == "Zmtp" { Tr::Zmtp } else { Tr::Inproc };
+    for d in [3usize, 4] {
+      if let Some(sc) = scripts(d).into_iter().find(|s| w["script"] == format!("{:?}", s)) {
+        let conn = (1..d).flat_map(|k| [Conn::LateAt(k), Conn::RelinkAt(k), Conn::SecondPubAt(k)]).find(|c| w["conn"] == format!("{:?}", c)).ok_or("connection mode not found")?;
+        let r = history_world_conn(tr, &sc, conn);
         if !r.panics.is_empty() {
           return Err(format!("panics: {:?}", r.panics));
         }
